@@ -4,19 +4,23 @@ import (
 	"bytes"
 	"compress/zlib"
 	"encoding/binary"
+	"fmt"
 	"hash/crc32"
 )
 
 // Info is what a loader must report for a generated file, known by construction.
 type Info struct {
-	Format       string
-	W, H, Bits   uint32
-	ICC          []byte // exact embedded bytes; nil when none / damaged
-	HasICC       bool   // a profile is embedded (intact)
-	ICCDamaged   bool   // a damaged profile is embedded: the accessor must return an error
-	ICCLoose     bool   // outcome of the ICC accessor is not pinned by the property (e.g. duplicate chunk numbers)
+	Format        string
+	W, H, Bits    uint32
+	ICC           []byte   // exact embedded bytes; nil when none / damaged
+	HasICC        bool     // a profile is embedded (intact)
+	ICCDamaged    bool     // a damaged profile is embedded: the accessor must return an error
+	ICCLoose      bool     // outcome of the ICC accessor is not pinned by the property (e.g. duplicate chunk numbers)
+	ICCAltError   bool     // besides the exact bytes an error is acceptable too (damage located after the earliest stopping point)
+	NoSOF         bool     // no frame header before the scan: Load must fail
+	States        []uint64 // JPEG reference model: encoded state after each consumed event (see JPEGStateString)
 	ICCCandidates [][]byte
-	Need         int // offset of the end of the last structure a loader needs
+	Need          int // offset of the end of the last structure a loader needs
 }
 
 // ---------------------------------------------------------------- PNG
@@ -207,6 +211,28 @@ func JPEGModel(spec JPEGSpec, ev []JPEGEvent) Info {
 		}
 		return true
 	}
+	state := func(done bool) {
+		var mask uint64
+		for k := range chunks {
+			mask |= 1 << uint(k%40)
+		}
+		var v uint64
+		if sofSeen {
+			v |= 1
+		}
+		if damaged {
+			v |= 2
+		}
+		if loose {
+			v |= 4
+		}
+		if done {
+			v |= 8
+		}
+		v |= uint64(total+1) << 4
+		v |= mask << 16
+		info.States = append(info.States, v)
+	}
 	finish := func() Info {
 		switch {
 		case damaged:
@@ -216,35 +242,55 @@ func JPEGModel(spec JPEGSpec, ev []JPEGEvent) Info {
 		case total < 0:
 			// no ICC segments at all
 		case complete():
-			var b []byte
+			b := []byte{}
 			for i := 1; i <= total; i++ {
 				b = append(b, chunks[i]...)
 			}
 			info.HasICC, info.ICC = true, b
-			if b == nil {
-				info.ICC = []byte{}
-			}
 		default:
 			info.ICCDamaged = true // missing chunk(s)
 		}
 		return info
 	}
-	for _, e := range ev {
+	isICC := func(e JPEGEvent) bool {
+		return e.Seg.Marker == 0xE2 && len(e.Seg.Data) >= 14 && bytes.Equal(e.Seg.Data[:12], id)
+	}
+	// shadow scan after the earliest stopping point: later ICC segments that a
+	// loader reading on would treat as damage make an error acceptable as well
+	shadow := func(from int) {
+		for _, e := range ev[from:] {
+			if e.SOS {
+				return
+			}
+			if isICC(e) {
+				info.ICCAltError = true
+			}
+		}
+	}
+	for i, e := range ev {
 		switch {
 		case e.SOF:
 			sofSeen, sofEnd = true, e.End
 			if complete() {
 				info.Need = e.End
+				state(true)
+				shadow(i + 1)
 				return finish()
 			}
+			state(false)
 		case e.SOS:
 			info.Need = e.End
 			if complete() {
 				info.Need = maxI(sofEnd, lastICCEnd)
 			}
+			if !sofSeen {
+				info.NoSOF = true
+			}
+			state(true)
 			return finish()
-		case e.Seg.Marker == 0xE2 && len(e.Seg.Data) >= 14 && bytes.Equal(e.Seg.Data[:12], id):
+		case isICC(e):
 			if damaged {
+				state(false)
 				continue // a loader that has latched an error may ignore the rest
 			}
 			num, tot := int(e.Seg.Data[12]), int(e.Seg.Data[13])
@@ -253,26 +299,40 @@ func JPEGModel(spec JPEGSpec, ev []JPEGEvent) Info {
 				chunks = map[int][]byte{}
 			} else if tot != total {
 				damaged = true
+				state(false)
 				continue
 			}
 			if num == 0 || num > total {
 				damaged = true
+				state(false)
 				continue
 			}
 			if _, dup := chunks[num]; dup {
 				loose = true
+				state(false)
 				continue
 			}
 			chunks[num] = e.Seg.Data[14:]
 			lastICCEnd = e.End
 			if sofSeen && complete() {
 				info.Need = e.End
+				state(true)
+				shadow(i + 1)
 				return finish()
 			}
+			state(false)
+		default:
+			state(false)
 		}
 	}
 	info.Need = 0
+	info.NoSOF = !sofSeen
 	return finish()
+}
+
+// JPEGStateString renders an encoded reference-model state.
+func JPEGStateString(v uint64) string {
+	return fmt.Sprintf("sofSeen=%v damaged=%v duplicate=%v done=%v total=%d filled=%b", v&1 != 0, v&2 != 0, v&4 != 0, v&8 != 0, int((v>>4)&0xFFF)-1, v>>16)
 }
 
 func maxI(a, b int) int {
